@@ -17,6 +17,28 @@ impl MMPermissions {
     pub open spec fn r(&self) -> bool { self.bits & 1 == 1 }
     pub open spec fn w(&self) -> bool { self.bits & 2 == 2 }
     pub open spec fn x(&self) -> bool { self.bits & 4 == 4 }
+    // the bitflags constants and set operations the functions under proof use
+    // (values and meaning pinned on the real type by the Kani harness vk_mmpermission_bits)
+    pub const READ: MMPermissions = MMPermissions { bits: 1 };
+    pub const WRITE: MMPermissions = MMPermissions { bits: 2 };
+    pub const EXECUTE: MMPermissions = MMPermissions { bits: 4 };
+    #[verifier::external_body]
+    pub fn contains(&self, other: MMPermissions) -> (r: bool)
+        ensures r == (self.bits & other.bits == other.bits)
+    { unimplemented!() }
+    #[verifier::external_body]
+    pub fn intersects(&self, other: MMPermissions) -> (r: bool)
+        ensures r == (self.bits & other.bits != 0)
+    { unimplemented!() }
+}
+impl vstd::std_specs::ops::BitOrSpecImpl<MMPermissions> for MMPermissions {
+    open spec fn obeys_bitor_spec() -> bool { true }
+    open spec fn bitor_req(self, rhs: MMPermissions) -> bool { true }
+    open spec fn bitor_spec(self, rhs: MMPermissions) -> MMPermissions { MMPermissions { bits: self.bits | rhs.bits } }
+}
+impl core::ops::BitOr for MMPermissions {
+    type Output = MMPermissions;
+    fn bitor(self, rhs: MMPermissions) -> MMPermissions { MMPermissions { bits: self.bits | rhs.bits } }
 }
 
 /// target memory as seen through the reader contract (C17): uninterpreted
